@@ -37,6 +37,18 @@ type (
 	}
 )
 
+// sortedKeys returns the names of the bound arguments in sorted order, so
+// that anything which iterates over the bindings (in particular error
+// reporting) is repeatable.
+func (m ResolvedBindingMap) sortedKeys() []string {
+	keys := make([]string, 0, len(m))
+	for key := range m {
+		keys = append(keys, key)
+	}
+	sort.Strings(keys)
+	return keys
+}
+
 type bindingError struct {
 	Msg string
 	Err error
